@@ -11,6 +11,10 @@ def is_valid_ptr_v452 (base size ptr ptr_size : BitVec 64) : Bool :=
 def arena_reloc_reject_v452 (buffer_id num_buffers offset used bdata : BitVec 64) : Bool :=
   ((decide (num_buffers ≤ buffer_id) || decide ((used - (8#64)) < offset)) || (bdata == (0#64)))
 
+/-- frozen copy of the arena.c relocation test with the explicit `used < sizeof(void*)` disjunct -/
+def arena_reloc_reject_v2 (buffer_id num_buffers offset used bdata : BitVec 64) : Bool :=
+  (decide (num_buffers ≤ buffer_id) || (((bdata == (0#64)) || decide (used < (8#64))) || decide ((used - (8#64)) < offset)))
+
 theorem finishCore_bounded (dataSize rva r x y z : Nat) (h : finishCore dataSize rva x y z = some r) :
     r < dataSize := by
   simp only [finishCore] at h
